@@ -312,6 +312,9 @@ func untypedComparable(pkg *Package, v *types.Basic, varg *Element, t types.Type
 				return (u.Info() & types.IsBoolean) != 0
 			case types.UntypedFloat:
 				if constant.ToInt(varg.CVal).Kind() != constant.Int {
+					if (u.Info() & types.IsUntyped) != 0 { // other operand is an untyped constant, e.g. 0.5 != 1
+						return (u.Info() & types.IsNumeric) != 0
+					}
 					return (u.Info() & (types.IsFloat | types.IsComplex)) != 0
 				}
 				fallthrough
